@@ -470,5 +470,5 @@ func init() {
 	}
 	register("C13", &checkDef{fn: checkC13,
 		rule:        "E4: successfully parsed messages (combinations of up to K header lines incl. repeated From, 3 Contact headers with 5 values, 2 PAI headers with 4 values) x header capacity -1..N+1 x contact capacity -1..6 (one-shot, plus single cuts on a subset) compared with the ample-capacity parse: verdict, offset, counts, flags, shortcuts, values, summaries, first/last contact, signature; stored elements = prefix; URI param/header lists x capacity -1..P+1 x every cut; non-trivial = inputs that parse successfully",
-		quickBudget: 150 * time.Second, thorBudget: 30 * time.Minute})
+		quickBudget: 150 * time.Second, thorBudget: 45 * time.Minute})
 }
